@@ -57,6 +57,38 @@ def generate(g, h):
         return False
     safe('HELPER_JOINS_PIECES', 'bool', joins)
 
+    def read_error_drops_line():
+        """A failed stdin read makes _read_next_string_line return None for the WHOLE line: the
+        `try/except IOError` encloses the re-joining loop and there is no handler inside the loop."""
+        f = h.func(trees()[0], 'main._read_next_string_line')
+        ok = False
+        for n in ast.walk(f):
+            if isinstance(n, ast.Try):
+                has_loop = any(isinstance(x, ast.While) for b in n.body for x in ast.walk(b))
+                returns_none = all(any(isinstance(x, ast.Return) and x.value is None for x in ast.walk(hd))
+                                   for hd in n.handlers)
+                ok = ok or (has_loop and returns_none)
+            if isinstance(n, ast.While) and any(isinstance(x, ast.Try) for x in ast.walk(n)):
+                return False
+        return ok
+    safe('READ_ERROR_DROPS_LINE', 'bool', read_error_drops_line)
+
+    def drops_unfinished():
+        """At end of input inside a line (`if not piece:` in the loop): `return` gives the unfinished
+        line up, `break` hands it out as if it were a line."""
+        f = h.func(trees()[0], 'main._read_next_string_line')
+        for n in ast.walk(f):
+            if isinstance(n, ast.While):
+                for x in ast.walk(n):
+                    if isinstance(x, ast.If) and 'piece' in ast.dump(x.test):
+                        kinds = [type(y).__name__ for b in x.body for y in ast.walk(b) if isinstance(y, (ast.Return, ast.Break))]
+                        if kinds == ['Return']:
+                            return True
+                        if kinds == ['Break']:
+                            return False
+        raise KeyError('if not piece')
+    safe('HELPER_DROPS_UNFINISHED_LINE', 'bool', drops_unfinished)
+
     def splits(sep):
         out = []
         for c in h.calls(fw_main(), lambda c: h.callname(c) == 'split' and len(c.args) == 2):
